@@ -112,7 +112,12 @@ func (u *PsipURI) Long() PField {
 	} else if u.Host.Len > 0 {
 		r.Set(int(u.Scheme.Offs), int(u.Host.Offs+u.Host.Len))
 	} else if u.Pass.Len > 0 {
-		r.Set(int(u.Scheme.Offs), int(u.Pass.Offs+u.Pass.Len))
+		end := u.Pass.Offs + u.Pass.Len
+		if u.User.Len > 0 && u.User.Offs+u.User.Len > end {
+			// tel: the number (kept in User) comes after the password
+			end = u.User.Offs + u.User.Len
+		}
+		r.Set(int(u.Scheme.Offs), int(end))
 	} else if u.User.Len > 0 {
 		r.Set(int(u.Scheme.Offs), int(u.User.Offs+u.User.Len))
 	}
@@ -157,11 +162,12 @@ func (u *PsipURI) AdjustOffs(newpos PField) bool {
 	}
 	start := u.Scheme.Offs
 	// real uri length (delimiters included): from the scheme start to the
-	// end of the last component present
+	// furthest end of the components present (for tel: the user comes
+	// after the password)
 	ulen := u.Scheme.Len
 	for _, f := range [...]PField{u.User, u.Pass, u.Host, u.Port,
 		u.Params, u.Headers} {
-		if f.Offs != 0 {
+		if f.Offs != 0 && f.Offs+f.Len-start > ulen {
 			ulen = f.Offs + f.Len - start
 		}
 	}
